@@ -305,7 +305,7 @@ def main():
                     rc, outp = native_run(d, [x["harness"] for x in by_pkg[d]], [(h["harness"], f)], tcfg.get("replay_timeout", 40))
                     cl = classify(rc, outp)
                     rec["native_output_tail"] = outp[-1200:]
-                if cl == "pass" and h["harness"] in cfg.get("schedule_harnesses", []) and v.get("schedule"):
+                if cl == "pass" and h["harness"] in cfg.get("schedule_harnesses", []):
                     # the violation needs a particular interleaving: stress the native run a few times, then report it
                     # with the engine's schedule (the native scheduler cannot be forced without hooks in /repo)
                     for _ in range(tcfg.get("schedule_stress_runs", 10)):
